@@ -108,8 +108,10 @@ def pre_step(world: World, sim: SimRunner, inputs: InputData):
     for suc_sim in sim.successors_to_wait_for:
         suc = suc_sim.sid
         if sim.last_step.time >= 0:
-            suc_node = (suc, sims[suc].last_step)
-            eg.add_edge(suc_node, node_id)
+            if sims[suc].last_step.time >= 0:
+                # (A successor that has not stepped yet has no node.)
+                suc_node = (suc, sims[suc].last_step)
+                eg.add_edge(suc_node, node_id)
             # Compare the main times only: the two simulators may be in
             # (different) groups, so their times can have several tiers.
             assert sims[suc].progress.time.time + 1 >= next_step.time
